@@ -36,6 +36,7 @@ KONS = {
     "KB": lambda n: W.Base(n, 7, f"B{n}"),                 # positional
     "KS": lambda n: W.Sub(k=n, tag=f"S{n}"),               # keyword, default v
     "KU": lambda n: W.USub(n, w=3, tag=f"U{n}"),           # mixed, undecorated subclass
+    "KL": lambda n: W.Leaf(n, tag=f"L{n}"),                # third level: Base <- Sub <- Leaf
     "KH": lambda n: W.Hand(n, tag=f"H{n}"),                # hand-written __init__
     "KO": lambda n: W.Other(p=n, tag=f"O{n}"),             # unrelated type
     "KD": lambda n: W.Dflt(),                              # no argument at all: every field from its default
@@ -197,7 +198,7 @@ def registry_ids():
     return sorted(out)
 
 
-LEGEND = ("KB=Base(n, 7) KS=Sub(k=n) KU=USub(n, w=3) KH=Hand(n) KO=Other(p=n) KD=Dflt() K0=Hand0()  [concrete constructions, "
+LEGEND = ("KB=Base(n, 7) KS=Sub(k=n) KU=USub(n, w=3) KL=Leaf(n) [class Leaf(Sub)] KH=Hand(n) KO=Other(p=n) KD=Dflt() K0=Hand0()  [concrete constructions, "
           "n = running number]; "
           "YB=`with symbolic_mode(): Base(k=1)` YS=`with symbolic_mode(): Sub()` YH=`with rule_mode(): Hand(k=1)`; "
           "R=list(infer(entity(Sub(k=x.p), x.p >= 1)).evaluate()) over two Items; C=clear the registry (as test/conftest.py); "
